@@ -512,20 +512,24 @@ def monitors_popen(s, drv, rep):
             else:
                 if kills:
                     fails["C10"].append("op#%d %s sent %s after termination had been observed" % (i + 1, name, kills))
+        if any(c.startswith("FOREIGNKILL") for c in log):
+            fails["C10"].append("op#%d %s sent a signal to a process other than the child: %s" % (
+                i + 1, name, [c for c in log if c.startswith("FOREIGNKILL")]))
         # C11
         if name == "poll":
             if nsleep or nwait > 1 or val.startswith("err"):
                 fails["C11"].append("op#%d poll(): %d waitpid, %d sleeps, value %s" % (i + 1, nwait, nsleep, val))
         if name.startswith("wt"):
             d = int(name[2:])
-            slack = calls * 64_000 + nsleep * 3 * MS + MS
+            # the bounds of theorems C11_wt_not_late / C11_wt_prompt_status with the scheduler's D = 50 us, O = 3 ms
+            D_, O_ = 50_000, 3 * MS
             if val == "none":
                 if t1 < t0 + d:
                     fails["C11"].append("op#%d wait_timeout(%d) reported 'still running' %d ns early" % (i + 1, d, t0 + d - t1))
-                if t1 > t0 + d + slack:
+                if t1 > t0 + d + 4 * D_ + O_:
                     fails["C11"].append("op#%d wait_timeout(%d) reported 'still running' %d ns late" % (i + 1, d, t1 - t0 - d))
             elif not val.startswith("err") and reported is not None and finished_at_op == i and exit_time is not None:
-                if t1 > max(exit_time, t0) + 100 * MS + slack:
+                if t1 > max(exit_time, t0 + D_) + 100 * MS + 3 * D_ + O_:
                     fails["C11"].append("op#%d wait_timeout(%d) reported the exit %d ns after it happened" % (i + 1, d, t1 - max(exit_time, t0)))
             if calls:
                 bound = 8 + 2 + d // (100 * MS) + 1
